@@ -32,6 +32,21 @@ FRANGES = [(fbits(-1.0), fbits(1.0)), (fbits(0.0), fbits(1.0)), (fbits(1.0), fbi
            (fbits(-3.4e38), fbits(-3.3e38)), (0, 1), (fbits(-1e38), fbits(2.5e38))]
 
 
+def narrow_ranges():
+    """(min, max) bit patterns 1, 2 and 3 ulps apart at several magnitudes, positive and mirrored negative, subnormal and
+    straddling zero: `min + (max - min) * u` is not representable inside such a range and rounds onto a bound"""
+    out = []
+    for m in (1.0, 1000.0, 16777216.0, 1e30, 3e38, 1.17549435e-38, 1e-30):
+        b = fbits(m)
+        for k in (1, 2, 3):
+            out.append((b, b + k))
+            out.append((0x80000000 | (b + k), 0x80000000 | b))
+    for k in (1, 2, 3):
+        out += [(1, 1 + k), (0, k), (0x80000000 | (1 + k), 0x80000001), (0x80000000 | k, NZERO), (0x80000000 | k, k)]
+    out += [(0x007fffff, 0x00800001), (0x3f7fffff, 0x3f800001), (0x4b7fffff, 0x4b800001)]     # across a binade boundary (ulp doubles)
+    return out
+
+
 def sp_float(bits):
     import struct
     return struct.unpack("<f", struct.pack("<I", bits))[0]
@@ -107,6 +122,15 @@ def streams(seed, tier):
     cases.append(case(1, 11, base * 2, [state(bool=[True]), [], S("BOOLEAN.RAND"), 0, [], 0], tape(rng)))
     out.append(Stream("scalars-names", "rand", "rand.check", cases,
                       "INTEGER.RAND / FLOAT.RAND over configured intervals incl. equal, reversed, full range, overflowing width, infinite and NaN bounds; NAME.RANDBOUNDNAME with 0/1/5 bindings; NAME.RAND; BOOLEAN.RAND", project=project))
+    # ---- FLOAT.RAND on ranges a few ulps wide ----
+    cases = []
+    for (lo, hi) in narrow_ranges():
+        st = state(float=[fbits(4.0)], cfg=cfg(maxf=hi, minf=lo))
+        cases.append(case(rng.randrange(2), 7, base * 2, [st], tape(rng)))
+        cases.append(case(rng.randrange(2), 11, base * 2, [st, [], S("FLOAT.RAND"), 0, [], 0], tape(rng)))
+    out.append(Stream("FLOAT.RAND-narrow-ranges", "rand", "rand.check", cases,
+                      "random_float / FLOAT.RAND with (min, max) 1, 2 and 3 ulps apart at 1.0, 1000.0, 2^24, 1e30, 3e38, the smallest normal, 1e-30, subnormal, mirrored negative, "
+                      "straddling zero and across a binade boundary, %d draws each: min <= x < max (a scaled unit sample rounds onto max with probability 1/6 .. 1/2 per draw there)" % (base * 2), project=project))
     if tier != "quick":
         # random parameters around the boundaries
         cases = []
